@@ -40,7 +40,10 @@ import (
 	"verif/harness/vh"
 )
 
-const sentinel = " Z\r\n"
+// sentinels: what follows the value on the wire (index sn-1; Wire.tla Sentinels).  The second one
+// puts a quoted string with an escaped quote, a literal header look-alike and a parenthesis behind the
+// value: "consuming exactly the bytes that were written" must not depend on what comes next.
+var sentinels = []string{" Z\r\n", " Z \"q\\\"\" {3})\r\n"}
 
 // ---------------------------------------------------------------- values
 
@@ -257,7 +260,7 @@ type encObs struct {
 
 // encode runs the real Encoder: the value, then SP "Z" CRLF through the same encoder.
 // What reached the connection is returned.
-func encode(v *value, mode, api int) (obs encObs) {
+func encode(v *value, mode, api, sn int) (obs encObs) {
 	var conn bytes.Buffer
 	bw := bufio.NewWriter(&conn)
 	enc := w.NewEncoder(bw, sideOf(mode))
@@ -321,7 +324,7 @@ func encode(v *value, mode, api int) (obs encObs) {
 	case "list", "nest":
 		encTree(enc, v.tree, api)
 	}
-	enc.SP().Atom("Z")
+	enc.SP().Atom(strings.TrimSuffix(sentinels[sn-1][1:], "\r\n")) // raw
 	err := enc.CRLF()
 	obs.Err = err != nil
 	obs.Bytes = append([]byte{}, conn.Bytes()...)
@@ -618,47 +621,49 @@ func (r *recorder) record(v *value) (nontrivial bool) {
 	if v.kind == "list" || v.kind == "nest" {
 		apis = 2
 	}
-	for api := 0; api < apis; api++ {
-		for mode := 0; mode < 16; mode++ {
-			obs := encode(v, mode, api)
-			r.runs++
-			var decs []decObs
-			if !obs.Err && obs.Panic == "" {
-				for _, f := range decoders(v.kind, "string") {
-					decs = append(decs, decode(v.kind, f, otherSide(sideOf(mode)), obs.Bytes))
-					r.runs++
+	for sn := 1; sn <= len(sentinels); sn++ {
+		for api := 0; api < apis; api++ {
+			for mode := 0; mode < 16; mode++ {
+				obs := encode(v, mode, api, sn)
+				r.runs++
+				var decs []decObs
+				if !obs.Err && obs.Panic == "" {
+					for _, f := range decoders(v.kind, "string") {
+						decs = append(decs, decode(v.kind, f, otherSide(sideOf(mode)), obs.Bytes))
+						r.runs++
+					}
 				}
-			}
-			if decs == nil {
-				decs = []decObs{}
-			}
-			rec := map[string]interface{}{"ev": "Enc", "k": v.kind, "v": v.raw, "err": obs.Err || obs.Panic != "",
-				"bytes": ints(obs.Bytes), "dec": decs}
-			// mode 0..7 client: the peer decoder is the server's and vice versa: part of the observation
-			keyb, _ := json.Marshal([]interface{}{rec["err"], obs.Bytes, decs, obs.Panic})
-			key := string(keyb)
-			g := groups[key]
-			if g == nil {
-				g = &group{rec: rec}
-				groups[key] = g
-				order = append(order, key)
-			}
-			seen := false
-			for _, m := range g.ms {
-				seen = seen || m == mode
-			}
-			if !seen {
-				g.ms = append(g.ms, mode)
-			}
-			if bytes.HasPrefix(obs.Bytes, []byte("{")) {
-				r.lits++
-			}
-			if obs.Err {
-				r.refused++
-			}
-			// the encoder had to do more than copy the value between quotes
-			if obs.Err || bytes.ContainsAny(obs.Bytes, "{\\&(") || (v.kind == "mbox" && bytes.HasPrefix(obs.Bytes, []byte("INBOX "))) {
-				nontrivial = true
+				if decs == nil {
+					decs = []decObs{}
+				}
+				rec := map[string]interface{}{"ev": "Enc", "k": v.kind, "v": v.raw, "err": obs.Err || obs.Panic != "",
+					"bytes": ints(obs.Bytes), "dec": decs, "sn": sn}
+				// mode 0..7 client: the peer decoder is the server's and vice versa: part of the observation
+				keyb, _ := json.Marshal([]interface{}{rec["err"], obs.Bytes, decs, obs.Panic, sn})
+				key := string(keyb)
+				g := groups[key]
+				if g == nil {
+					g = &group{rec: rec}
+					groups[key] = g
+					order = append(order, key)
+				}
+				seen := false
+				for _, m := range g.ms {
+					seen = seen || m == mode
+				}
+				if !seen {
+					g.ms = append(g.ms, mode)
+				}
+				if bytes.HasPrefix(obs.Bytes, []byte("{")) {
+					r.lits++
+				}
+				if obs.Err {
+					r.refused++
+				}
+				// the encoder had to do more than copy the value between quotes
+				if obs.Err || bytes.ContainsAny(obs.Bytes, "{\\&(") || (v.kind == "mbox" && bytes.HasPrefix(obs.Bytes, []byte("INBOX "))) {
+					nontrivial = true
+				}
 			}
 		}
 	}
@@ -781,15 +786,18 @@ func runCase(c *caseT) (string, decObs) {
 	if c.Side == "c" {
 		side = w.ConnSideClient
 	}
-	data := append(toBytes(c.Rep.B), sentinel...)
-	o := decode(c.Line.K, c.F, side, data)
-	switch {
-	case o.Err || !o.Ok:
-		return "error", o
-	case c.F != "DiscardValue" && !sameValue(c.Line, normVal(o.Val)):
-		return "value", o
-	case string(toBytes(o.Rest)) != sentinel || o.Left != len(sentinel):
-		return "leftover", o
+	var o decObs
+	for _, sentinel := range sentinels {
+		data := append(toBytes(c.Rep.B), sentinel...)
+		o = decode(c.Line.K, c.F, side, data)
+		switch {
+		case o.Err || !o.Ok:
+			return "error", o
+		case c.F != "DiscardValue" && !sameValue(c.Line, normVal(o.Val)):
+			return "value", o
+		case string(toBytes(o.Rest)) != sentinel || o.Left != len(sentinel):
+			return "leftover", o
+		}
 	}
 	return "", o
 }
